@@ -11,11 +11,14 @@ timer thread and main thread, any way each task ends, any clock behaviour.
 
 The proofs go through the single inductive invariant `ParProofs.Inv` (`Proofs/Par.lean`).
 
-Findings recorded here as `decide`d witnesses (statements that turned out FALSE are not bent):
-* `C07X_suspend_with_resubmitted_branch_witness` — the main thread can raise the (timed) suspend
-  exception while a branch is RUNNING again, even while its task is executing in a worker;
-* `C09X_suspend_despite_policy_decided_witness` — the main thread can report "suspend" although the
-  completion policy is decided at the moment it wakes up;
+Two findings of the first round (the main thread raising a timed suspend while the timer thread had
+re-started a branch; "suspend" reported although the policy had meanwhile become decided) are closed by
+the fix modelled in `Par.timerFire` (the resubmitter does not start a branch once the completion event
+is set): their witnesses are no longer runs of the model, and the statements they refuted are now
+proved at full strength (`C07X_suspend_means_idle`, `C09X_suspend_excludes_policy`,
+`C07X_no_start_after_decision`).
+
+Finding still recorded as a `decide`d witness (a statement that turned out FALSE is not bent):
 * `C07X_early_orphan_stuck_witness` — the wanted "never stuck" statement is false *in the model* when
   a task ends with `OrphanedChildException` before the completion event is set; it is proved for all
   runs in which that exception is only raised after the event is set (`ParProofs.ReachO`).
@@ -128,23 +131,22 @@ theorem C09X_wake_outcome (h : Reach n maxConc cfg s) (hs : step s .wake = some 
   · exact h1
 
 /-- Once the policy is decided it stays decided (`C09_decision_stable`) and no suspend decision is
-taken afterwards: "event set by the policy, suspend exception set later" is impossible. -/
+taken afterwards: "event set by the policy, suspend exception set later" is impossible
+(for the converse order see `C09X_suspend_excludes_policy`). -/
 theorem C09X_policy_decided_stable (h : Reach n maxConc cfg s) {a : Act} (hs : step s a = some s')
     (hd : Policy.shouldComplete cfg s.succ s.fail n = true) :
     Policy.shouldComplete cfg s'.succ s'.fail n = true ∧ s'.suspendExc = s.suspendExc :=
   policy_decided_step (Inv.of_reach h) hs hd
 
-/-- The converse order **is** possible: the suspend decision is taken first (all branches idle, one of
-them timed), the timer thread resubmits the timed branch, it completes and thereby decides the policy
-(`min_successful = 1`) — but the main thread, waking up only now, still raises the suspend exception.
-So "suspend is reported ⇒ policy undecided at wake time" is FALSE; what holds is
-`C09X_wake_outcome` and `C07X_suspend_only_when_idle` (undecided *when the decision was taken*). -/
-theorem C09X_suspend_despite_policy_decided_witness :
-    (runActs (init 2 0 ⟨some 1, none, none⟩)
-      [.begin 0, .begin 1, .finish 0 (.suspUntil 0), .finish 1 .susp, .timerFire 0 true, .begin 0,
-       .finish 0 .ok, .wake]).map
-      (fun s => (s.out, Policy.shouldComplete s.cfg s.succ s.fail s.n, s.status 0))
-    = some (some (.suspend (some 0)), true, .completed) := by decide
+/-- **The converse order is impossible too** (since the fix: the timer thread starts nothing once the
+event is set).  From the moment a suspend decision is taken nothing finishes any more, the counters
+do not move, and the policy stays undecided: "suspend" and "policy decided" exclude each other in
+every reachable state — in particular when the main thread reports the suspension. -/
+theorem C09X_suspend_excludes_policy (h : Reach n maxConc cfg s) :
+    (s.suspendExc.isSome = true → Policy.shouldComplete cfg s.succ s.fail n = false) ∧
+    (∀ k, s.out = some (.suspend k) → Policy.shouldComplete cfg s.succ s.fail n = false) :=
+  have hI := Inv.of_reach h
+  ⟨hI.susp_undecided, fun k ho => hI.susp_undecided (hI.out_susp k ho)⟩
 
 /-! ## 4. the reported items -/
 
@@ -371,34 +373,55 @@ theorem C07X_indefinite_suspend_idle (h : Reach n maxConc cfg s) (hk : s.suspend
       have hx : x ∈ s.queue := by rw [hq]; simp
       exact absurd (hI.run x (Or.inr hx)) (h1 x (hI.q_lt x hx)).1
 
-set_option synthInstance.maxSize 1024 in
-/-- **Finding (timed suspension).** "The main thread raises the suspend exception only when no branch
-is RUNNING" is FALSE for a *timed* suspend decision: between the decision and the main thread's
-wake-up the timer thread may resubmit the branch whose time has come.
+/-- **C07, a suspend decision is final.** From the step that writes `_suspend_exception` onwards — in
+every reachable state in which it is set, hence until and including the main thread's wake-up and
+after it — nothing is executing, nothing is queued, no branch is RUNNING, the policy is undecided and
+the event is set.  (When the decision is taken all branches are idle, `C07X_suspend_only_when_idle`;
+afterwards nothing can begin: the queue is empty and the timer thread, seeing the event, leaves a due
+branch PENDING instead of starting it.  PENDING statuses may therefore appear; RUNNING never.) -/
+theorem C07X_suspend_decision_idle (h : Reach n maxConc cfg s) (hk : s.suspendExc.isSome = true) :
+    s.active = [] ∧ s.queue = [] ∧ (∀ i, i < n → s.status i ≠ .running) ∧
+    Policy.shouldComplete cfg s.succ s.fail n = false ∧ s.evt = true :=
+  have hI := Inv.of_reach h
+  have h0 := hI.susp_idle hk
+  ⟨h0.1, h0.2.1, h0.2.2, hI.susp_undecided hk, hI.susp_evt hk⟩
 
-Shortest run (n = 1): branch 0 suspends until time 0 (already due) → decision `suspend (some 0)`;
-`timerFire 0 true` resubmits it; a worker starts it (`begin 0`); only now the main thread wakes and
-raises the timed suspend: `out = suspend (some 0)` while branch 0 is RUNNING and **its task is
-executing** (`active = [0]`).  (Without the `begin 0` the resubmitted task is still queued at the wake
-step and is cancelled by it — 4 actions, second component.) -/
-theorem C07X_suspend_with_resubmitted_branch_witness :
-    (runActs (init 1 0 ⟨none, none, none⟩)
-      [.begin 0, .finish 0 (.suspUntil 0), .timerFire 0 true, .begin 0, .wake]).map
-      (fun s => (s.out, s.status 0, s.active)) = some (some (.suspend (some 0)), .running, [0]) ∧
-    (runActs (init 1 0 ⟨none, none, none⟩)
-      [.begin 0, .finish 0 (.suspUntil 0), .timerFire 0 true]).map
-      (fun s => (s.evt, s.suspendExc, s.out, s.status 0, s.queue, (step s .wake).map (·.out)))
-      = some (true, some (some 0), none, .running, [0], some (some (.suspend (some 0)))) := by
-  decide
+/-- **C07, "suspended" means idle.** Whenever the main thread has raised the suspend exception, no
+branch is RUNNING, no task is executing and none is queued — the statement refuted before the fix by
+the run `[begin 0, finish 0 (suspUntil 0), timerFire 0 true, begin 0, wake]`, which is no longer a run
+of the model (see the last example of this file). -/
+theorem C07X_suspend_means_idle (h : Reach n maxConc cfg s) {k : Option Nat}
+    (ho : s.out = some (.suspend k)) :
+    s.active = [] ∧ s.queue = [] ∧ (∀ i, i < n → s.status i ≠ .running) ∧
+    s.suspendExc.isSome = true ∧ Policy.shouldComplete cfg s.succ s.fail n = false :=
+  have hk := (Inv.of_reach h).out_susp k ho
+  have h0 := C07X_suspend_decision_idle h hk
+  ⟨h0.1, h0.2.1, h0.2.2.1, hk, h0.2.2.2.1⟩
 
-/-- The strongest true statement for the window between the decision and the wake-up: a branch can
-become RUNNING again **only** by the timer thread's successful resubmission of a due timed-suspended
-branch, and only before the main thread has returned. (Together with
-`C07X_suspend_only_when_idle`: nothing is RUNNING when the decision is taken.) -/
+/-- A branch can become RUNNING again **only** by the timer thread's successful resubmission of a due
+timed-suspended branch, and only while the completion event is not set — hence before any decision
+(no suspend decision taken, main thread not returned). -/
 theorem C07X_running_again_only_by_timer (h : Reach n maxConc cfg s) {a : Act}
     (hs : step s a = some s') {i : Nat} (h0 : s.status i ≠ .running) (h1 : s'.status i = .running) :
-    a = .timerFire i true ∧ s.out = none ∧ ∃ t, s.status i = .suspendedUntil t ∧ t ≤ s.clock :=
-  running_step (Inv.of_reach h).toBook hs h0 h1
+    a = .timerFire i true ∧ s.evt = false ∧ s.out = none ∧ s.suspendExc = none ∧
+    ∃ t, s.status i = .suspendedUntil t ∧ t ≤ s.clock := by
+  have hI := Inv.of_reach h
+  have hr := running_step hI.toBook hs h0 h1
+  refine ⟨hr.1, hr.2.1, ?_, ?_, hr.2.2⟩
+  · cases ho : s.out
+    · rfl
+    · have := (hI.out_evt (by rw [ho]; rfl)).1; rw [hr.2.1] at this; cases this
+  · cases hk : s.suspendExc
+    · rfl
+    · have := hI.susp_evt (by rw [hk]; rfl); rw [hr.2.1] at this; cases this
+
+/-- **C07, nothing is started after the decision.** Once the completion event is set, along every
+continuation of the run the work queue only shrinks and only tasks that were already queued can still
+become active (the cancellation race of `C09X_cancel_only_after_decision`); no branch is re-submitted. -/
+theorem C07X_no_start_after_decision (h : Reach n maxConc cfg s) (he : s.evt = true)
+    (acts : List Act) (hr : runActs s acts = some s') :
+    s'.evt = true ∧ s'.queue ⊆ s.queue ∧ s'.active ⊆ s.active ++ s.queue :=
+  queue_run h he acts hr
 
 /-- After the main thread returned nothing is queued any more and nothing is ever resubmitted. -/
 theorem C07X_after_return_nothing_queued (h : Reach n maxConc cfg s) (ho : s.out.isSome = true) :
@@ -599,5 +622,21 @@ example :
       (fun s => (s.out, s.active, s.maxActive)) =
         some (some (.result [.running, .running, .suspended, .failed, .suspended]), [0, 1], 2) := by
   decide
+
+set_option synthInstance.maxSize 1024 in
+/-- (vi) the timer thread bails out after the decision: the only branch suspends until time 0 → the
+suspend decision sets the event; the timer thread pops the due entry but, seeing the event, leaves the
+branch PENDING and queues nothing; the main thread raises the timed suspend with everything idle.  The
+pre-fix witness runs (a worker beginning the resubmitted branch) are no longer runs of the model. -/
+example :
+    (runActs (init 1 0 ⟨none, none, none⟩)
+      [.begin 0, .finish 0 (.suspUntil 0), .timerFire 0 true, .wake]).map
+      (fun s => (s.out, s.status 0, s.queue, s.active, s.timers, s.fatal))
+      = some (some (.suspend (some 0)), .pending, [], [], [], false) ∧
+    (runActs (init 1 0 ⟨none, none, none⟩)
+      [.begin 0, .finish 0 (.suspUntil 0), .timerFire 0 true, .begin 0]).isNone = true ∧
+    (runActs (init 2 0 ⟨some 1, none, none⟩)
+      [.begin 0, .begin 1, .finish 0 (.suspUntil 0), .finish 1 .susp, .timerFire 0 true,
+       .begin 0]).isNone = true := by decide
 
 end C09X
